@@ -256,7 +256,7 @@ package fzf
 //@ func awkTokenizer
 //@ property C10
 //@ ensures r1 == blanks(input, 0) && 0 <= r1 && r1 <= len(input)
-//@ ensures forall(k, 0, len(r0), r0[k].arr == input.arr && len(r0[k]) >= 1 && !isBlank(r0[k][0]))
+//@ ensures forall(k, 0, len(r0), r0[k].arr == input.arr && len(r0[k]) >= 1 && len(r0[k]) <= len(input) && !isBlank(r0[k][0]))
 //@ ensures len(r0) > 0 ==> r0[0].off == input.off + r1 && r0[len(r0)-1].off + len(r0[len(r0)-1]) == input.off + len(input)
 //@ ensures forall(k, 1, len(r0), r0[k].off == r0[k-1].off + len(r0[k-1]))
 //@ ensures len(r0) == 0 ==> r1 == len(input)
@@ -266,8 +266,41 @@ package fzf
 //@   invariant state != 0 ==> prefixLength == blanks(input, 0) && prefixLength <= begin && begin < end && end == idx && !isBlank(input[begin])
 //@   invariant state == 1 ==> !isBlank(input[idx - 1])
 //@   invariant state == 2 ==> isBlank(input[idx - 1])
-//@   invariant forall(k, 0, len(ret), ret[k].arr == input.arr && len(ret[k]) >= 1 && !isBlank(ret[k][0]))
+//@   invariant forall(k, 0, len(ret), ret[k].arr == input.arr && len(ret[k]) >= 1 && len(ret[k]) <= len(input) && !isBlank(ret[k][0]))
 //@   invariant forall(k, 1, len(ret), ret[k].off == ret[k-1].off + len(ret[k-1]))
 //@   invariant len(ret) > 0 ==> ret[0].off == input.off + prefixLength && ret[len(ret)-1].off + len(ret[len(ret)-1]) == input.off + begin
 //@   invariant len(ret) == 0 && state != 0 ==> begin == prefixLength
 //@   decreases len(input) - idx
+
+// rcount(b): number of characters util.ToChars yields for the bytes b
+// psum(ts, k): total character count of the first k string tokens
+//@ spec func psum(ts []string, k int) int = k <= 0 ? 0 : psum(ts, k - 1) + rcount(bytesOf(ts[k - 1])) decreases k
+
+// Each field's recorded offset is the number of characters (not bytes) before it.
+//@ func withPrefixLengths
+//@ property C10
+//@ requires forall(k, 0, len(tokens), len(tokens[k]) < 2147483648)
+//@ mathint int32 -- character offsets within one input line are assumed to fit in 31 bits
+//@ ensures len(result) == len(tokens) && fresh(result)
+//@ ensures forall(k, 0, len(result), result[k].prefixLength == begin + psum(tokens, k) && result[k].text != nil)
+//@ ensures forall(k, 0, len(result), clen(result[k].text) == rcount(bytesOf(tokens[k])))
+//@ ensures len(result) > 0 ==> result[0].prefixLength == begin
+//@ ensures forall(k, 1, len(result), result[k].prefixLength == result[k-1].prefixLength + clen(result[k-1].text))
+//@ loop 1
+//@   invariant len(ret) == len(tokens) && fresh(ret) && prefixLength == begin + psum(tokens, iter)
+//@   invariant forall(k, 0, iter, ret[k].prefixLength == begin + psum(tokens, k) && ret[k].text != nil)
+//@   invariant forall(k, 0, iter, clen(ret[k].text) == rcount(bytesOf(tokens[k])))
+//@   invariant iter > 0 ==> ret[0].prefixLength == begin && prefixLength == ret[iter-1].prefixLength + clen(ret[iter-1].text)
+//@   invariant forall(k, 1, iter, ret[k].prefixLength == ret[k-1].prefixLength + clen(ret[k-1].text))
+
+// Each field starts at the character offset recorded for it: the offset of field k is the offset of
+// field k-1 plus the number of characters of field k-1 (the first one starts after the AWK prefix / at 0).
+//@ func Tokenize
+//@ property C10
+//@ requires len(text) < 2147483648
+//@ ensures forall(k, 0, len(result), result[k].text != nil)
+//@ ensures forall(k, 1, len(result), result[k].prefixLength == result[k-1].prefixLength + clen(result[k-1].text))
+//@ ensures len(result) > 0 ==> result[0].prefixLength == ((delimiter.str == nil && delimiter.regex == nil) ? blanks(text, 0) : 0)
+//@ loop 1
+//@   invariant 0 <= begin && begin <= len(text) && (iter == 0 ==> begin == 0) && (iter > 0 ==> begin == locs[iter-1][1]) && (tokens == nil || fresh(tokens))
+//@   invariant forall(k, 0, len(tokens), len(tokens[k]) <= len(text))
